@@ -461,6 +461,10 @@ def clauseText (r : Option (Req × List MsgIn)) : Clause → String
   | .seqAgree => "C12: client_server_agree over time: the SDK server refuses or alters a call the SDK client generated for valid arguments (tool listed under its current definition since the server's tools last changed)"
   | .unsupportedVersion st code handled => s!"C06+C12: unsupported-version answer: a request whose Mcp-Protocol-Version header and _meta agree on a version this SDK does not implement ({match r with | some (r, _) => bHex r.version | none => "?"}, not older than 2026-07-28) and that meets every other documented precondition was answered {st}/{optInt code}{if handled == 0 then "" else " after a handler ran"} instead of HTTP 400 with JSON-RPC -32022 listing the supported versions (or -32602)"
   | .seqLegacy => "C12: client_server_agree over time: a call on a legacy-protocol session (no Mcp-* mirror applies) is refused or altered"
+  | .seqBadListed => "C12: client_server_agree over time: a tools/list result the client fetched and handed on names a tool the server lists with invalid x-mcp-header annotations (filterValidTools must drop it: no Mcp-Param mirror can be derived from it)"
+  | .seqBadMirror => "C12: client_server_agree over time: the client sends Mcp-Param headers for a tool the server lists with invalid x-mcp-header annotations, after it handled the list_changed that followed the last change (it has no usable definition of the tool)"
+  | .seqBadCall => "C12: client_server_agree over time: a call of a tool the server lists with invalid x-mcp-header annotations (no mirror sent, the server's registered definition demands none for these arguments) is refused or altered — the client must still call such a tool"
+  | .seqOtherServer => "C12: client_server_agree over time: the handler refuses or alters a call that carries exactly the Mcp-Param headers demanded by the tool definition of the Server that serves THIS request (getServer chose it by the request's path; the client had just listed that server's tools; valid arguments) — the mirror was validated against something else, e.g. the same-named tool of another Server behind the same handler"
   | .seqStaleList => "C12: client_server_agree over time: after the client handled the list_changed notification that followed the server's last change of its tools, ListTools answers from the client's cache with tool definitions the server no longer has (a tools/list result from before the change was kept or stored) — CallTool takes the Mcp-Param mirror from definitions that are not the server's"
   | .reached st => s!"C12: refused request (status {st}) reached a middleware/handler"
   | .dispatchSound p => s!"C12: dispatch_sound: dispatched although: {match r with | some (r, ins) => precondText r ins p | none => reprStr p}"
@@ -653,6 +657,7 @@ def parseSeqObs (op : SeqOp) (impl : String) : Option SeqObs :=
   | .listRecv, h :: "T{" :: r => listed h r
   | .listSend _, ["sent"] => some .sent
   | .look _, "L{" :: r => (parseLooked r []).map SeqObs.looked
+  | .callB _ _, toks => called toks
   | .call _ _, toks =>
     (match parseHdrs toks with
      | some (h, ["ok", "same"]) => some (.called h .okSame)
@@ -665,6 +670,13 @@ def parseSeqObs (op : SeqOp) (impl : String) : Option SeqObs :=
   | _, ["ok"] => some .ok
   | _, _ => none
 where
+  called (toks : List String) : Option SeqObs :=
+    match parseHdrs toks with
+    | some (h, ["ok", "same"]) => some (.called h .okSame)
+    | some (h, "ok" :: _) => some (.called h .okOther)
+    | some (h, ["rej", code, hd]) => code.toInt?.map (fun cd => .called h (.notOk (some cd) (hd == "handler=0")))
+    | some (h, [e, hd]) => if e.startsWith "err" then some (.called h (.notOk none (hd == "handler=0"))) else none
+    | _ => none
   listed (h : String) (r : List String) : Option SeqObs :=
     match parseTools r [] with
     | some (tools, [nx]) =>
@@ -683,6 +695,17 @@ def parseSeqOp : List String → Option SeqOp
   | ["adv", _] => some .adv
   | ["notified"] => some .notified
   | ["list", k] => (parseCursor k).map SeqOp.list
+  | "setb" :: t :: r =>
+    (match hexB (tail1 t), parseProps r with
+     | some n, some (p, []) => if t.startsWith "t" then some (.setToolB n p) else none
+     | _, _ => none)
+  | ["bad", t] => if t.startsWith "t" then (hexB (tail1 t)).map SeqOp.setBad else none
+  | ["unbad", t] => if t.startsWith "t" then (hexB (tail1 t)).map SeqOp.clearBad else none
+  | ["delb", t] => if t.startsWith "t" then (hexB (tail1 t)).map SeqOp.delToolB else none
+  | "callb" :: t :: r =>
+    (match hexB (tail1 t), parseArgs r with
+     | some n, some (a, []) => if t.startsWith "t" then some (.callB n a) else none
+     | _, _ => none)
   | ["lsend", k] => (parseCursor k).map SeqOp.listSend
   | ["lrecv"] => some .listRecv
   | ["look", t] => if t.startsWith "t" then (hexB (tail1 t)).map SeqOp.look else none
